@@ -993,6 +993,7 @@ T.declare_ghost("q_gets", z3.IntSort())          # successful get()/get_nowait()
 T.declare_ghost("q_dones", z3.IntSort())         # task_done() calls
 T.declare_ghost("q_puts", z3.IntSort())
 T.declare_ghost("threads_started", z3.IntSort())
+T.declare_ghost("thread_start_failures", z3.IntSort())
 
 EVENT = "threading.Event"
 FIELDS.declare(EVENT, "_flag")
@@ -1121,6 +1122,13 @@ def _q_put(ex, st, args, kwargs, text):
     unfinished_tasks += 1; raises queue.Full only when the queue is bounded (maxsize > 0)"""
     q, item = ex.lift(args[0]), ex.lift(args[1])
     st = st.copy()
+    mon = getattr(ex.env, "monitor", None)
+    if mon is not None and ex.env.fn.qualname.endswith("ThreadPool.enqueue") and not st.locks:
+        # Appendix B: the put, the pending count and the decision to start a worker form one critical section; the
+        # retiring worker's test `extra_threads > qsize()` is evaluated under the same lock
+        from pyvc.symexec import Obligation
+        st.obligations.append(Obligation("%s/lock-discipline[queue.put]" % ex.env.fn.key, st.hyps(), z3.BoolVal(False), st.sig,
+                                         "lock-discipline", "queue.put", ex.env.contract.props))
     g = _q(st)
     ms = st.read(Val.ref(q), "maxsize")
     s_full = st.copy()
@@ -1139,7 +1147,7 @@ def _q_put(ex, st, args, kwargs, text):
 
 def _q_get(ex, st, args, kwargs, text):
     """Queue.get / get_nowait: removes and returns the head (each item is delivered to exactly one caller), q_gets += 1;
-    or raises queue.Empty"""
+    or raises queue.Empty.  Items are the stop sentinel or 4-tuples (content invariant of the pool's queue)"""
     st = st.copy()
     g = _q(st)
     s_e = st.copy()
@@ -1148,6 +1156,13 @@ def _q_get(ex, st, args, kwargs, text):
     s_ok = st.copy()
     s_ok.assume(Val.llen(g) >= 1)
     item = z3.Select(Val.lat(g), 0)
+    # content invariant of the pool's queue (its only producers are enqueue and stop): the stop sentinel (an Event
+    # object) or a (method, args, kwargs, future) tuple
+    s_ok.assume(z3.Or(V.is_obj(item), z3.And(V.is_tuple(item), Val.tlen(item) == 4)))
+    s_ok.assume(z3.Implies(V.is_tuple(item), has_attr(z3.Select(Val.tat(item), 3), sv("execute"))))
+    me = s_ok.locals.get("self")
+    if me is not None and z3.is_expr(me):
+        s_ok.assume(z3.Implies(V.is_obj(item), item == s_ok.read(Val.ref(me), "_done_event")))
     j = z3.Int("j!q")
     s_ok.ghost["q_items"] = V.VList(Val.llen(g) - 1, z3.Lambda([j], z3.Select(Val.lat(g), j + 1)))
     s_ok.ghost["q_gets"] = TABLE.ghost(s_ok, "q_gets") + 1
@@ -1227,6 +1242,7 @@ def _th_start(ex, st, args, kwargs, text):
     st = st.copy()
     s_ex = st.copy()
     s_ex.sig.append("Thread.start:RuntimeError")
+    s_ex.ghost["thread_start_failures"] = TABLE.ghost(s_ex, "thread_start_failures") + 1
     st.ghost["threads_started"] = TABLE.ghost(st, "threads_started") + 1
     return [(st, ("val", V.VNone)), (s_ex, ("raise", ex.make_exc(s_ex, RuntimeError)))]
 
@@ -1277,4 +1293,5 @@ def _with_block(ex, st, cm, item, stmt):
 TABLE.with_block = _with_block
 
 T.declare_ghost("w_counted", z3.BoolSort())        # the running worker is still included in __nb_threads
+T.declare_ghost("w_active", z3.BoolSort())         # the running worker is included in __nb_active_threads
 T.declare_ghost("w_cs_uncounted", z3.BoolSort())
